@@ -34,7 +34,7 @@ def _kind_ok(kind, value):
 # ------------------------------------------------------------------------------------------
 @st.composite
 def envs(draw, min_scalars=1, max_scalars=3, max_vectors=2, max_matrices=1, max_params=2,
-         max_vec=6, max_mat=3, min_vectors=0, min_matrices=0, bounds=False):
+         max_vec=6, max_mat=3, min_vectors=0, min_matrices=0, bounds=False, big_sizes=True):
     spool = TINY_POOLS["scalars"] if TINY else SCALAR_NAMES
     vpool = TINY_POOLS["vectors"] if TINY else VECTOR_NAMES
     mpool = TINY_POOLS["matrices"] if TINY else MATRIX_NAMES
@@ -55,12 +55,19 @@ def envs(draw, min_scalars=1, max_scalars=3, max_vectors=2, max_matrices=1, max_
         return {"lb": lb, "ub": ub}
 
     env = {"scalars": [dict(name=n, **bnd()) for n in snames], "vectors": [], "matrices": [], "params": []}
-    for n in vnames:
-        env["vectors"].append(dict(name=n, n=draw(st.integers(1, max_vec)), **bnd()))
+    for k, n in enumerate(vnames):
+        size = draw(st.integers(1, max_vec))
+        if k == 0 and big_sizes and draw(st.integers(0, 9)) == 0:
+            # two-digit indices: x[10] sorts before x[2] as a string, element 10+ exists
+            size = draw(st.sampled_from([11, 12, 13]))
+        env["vectors"].append(dict(name=n, n=size, **bnd()))
     for n in mnames:
         sym = draw(st.booleans())
         r = draw(st.integers(1, max_mat))
         c = r if sym else draw(st.integers(1, max_mat))
+        if big_sizes and draw(st.integers(0, 19)) == 0:
+            sym = False
+            r, c = draw(st.sampled_from([(1, 11), (11, 1), (2, 11)]))
         env["matrices"].append(dict(name=n, r=r, c=c, sym=sym, **bnd()))
     for n in pnames:
         env["params"].append(dict(name=n, value=draw(st.sampled_from([0.5, 1.0, 2.0, -1.5, 3.0, 0.0, 1.0]))))
@@ -307,10 +314,10 @@ class G:
         return None
 
     def dot(self, d):
-        A = self.V(d, classes=("var", "expr"))
+        A = self.Vop(d)
         n = vsize(A, self.env)
         if self.cfg.overlap_dot:
-            B = self.V(d, size=n, classes=("var", "expr"))
+            B = self.Vop(d, size=n)
         else:
             B = self.V(d, size=n, classes=("expr",)) if vclass(A) == "var" else self.V(d, size=n, classes=("var", "expr"))
         return ["dot", A, B, self.draw(st.sampled_from(["dot", "matmul"]))]
@@ -332,7 +339,7 @@ class G:
         return ["dot", u, ["matvec", Q, w, self.draw(st.sampled_from(["op", "fn"]))], self.draw(st.sampled_from(["dot", "dot", "matmul"]))]
 
     def lincomb(self, d):
-        V = self.V(d, classes=("var", "expr"))
+        V = self.Vop(d)
         n = vsize(V, self.env)
         style = self.draw(st.sampled_from(["c@x", "x@c", "list@x", "x@list", "LinearCombination", "ci@x"]))
         cs = self.coeffs(n)
@@ -341,12 +348,12 @@ class G:
         return ["lincomb", cs, V, style]
 
     def norm(self, d):
-        V = self.V(d, classes=("var", "expr"))
+        V = self.Vop(d)
         style = "function" if vclass(V) != "var" else self.draw(st.sampled_from(["method", "function"]))
         return ["norm", V, self.draw(st.sampled_from([1, 2])), style]
 
     def quad(self, d):
-        V = self.V(d, classes=("var", "expr"))
+        V = self.Vop(d)
         n = vsize(V, self.env)
         Q = self.matrix_data(n, n, symmetric=self.draw(st.booleans()))
         styles = ["quadratic_form", "QuadraticForm", "dot_matmul_fn"]
@@ -392,6 +399,17 @@ class G:
             if m["r"] == m["c"] and (size is None or m["r"] == size):
                 c.append((1, lambda m=m: ["diag", ["mvar", m["name"]],
                                           self.draw(st.sampled_from(["method", "function"]))]))
+                if m["r"] >= 2:
+                    # diagonal of a row- or column-reversed (or transposed) view: for a symmetric matrix it holds a
+                    # shared variable twice (S[::-1, :].diagonal() = S[2,0], S[1,1], S[0,2] with S[2,0] is S[0,2])
+                    def rdiag(m=m):
+                        base = ["mvar", m["name"]]
+                        how = self.draw(st.sampled_from(["rows", "cols", "T"]))
+                        M = ["T", base] if how == "T" else \
+                            ["msub", base, [None, None, -1], [None, None, None]] if how == "rows" else \
+                            ["msub", base, [None, None, None], [None, None, -1]]
+                        return ["diag", M, self.draw(st.sampled_from(["method", "function"]))]
+                    c.append((1, rdiag))
         return c
 
     def V(self, depth, size=None, classes=("var", "expr")):
@@ -455,9 +473,24 @@ class G:
         if not self.var_vector_sources(size):
             return None
         base = self.pick(self.var_vector_sources(size))
+        if size is None and self.draw(st.integers(0, 3)) == 0:
+            # a slice of an element-wise result: (x ** k)[a:b:s]
+            m = vsize(base, self.env)
+            a, b, s_ = make_slice(self.draw, m, self.draw(st.integers(1, m)))
+            inner = ["vpow", base, self.draw(st.sampled_from(self.cfg.pow_exps))] if self.draw(st.booleans()) \
+                else ["vfn", self.draw(st.sampled_from(self.cfg.vec_funcs)), base]
+            return ["slice", inner, a, b, s_]
         if self.draw(st.booleans()):
             return ["vpow", base, self.draw(st.sampled_from(self.cfg.pow_exps))]
         return ["vfn", self.draw(st.sampled_from(self.cfg.vec_funcs)), base]
+
+    def Vop(self, d, size=None):
+        """a vector operand of a reduction: variable / expression class, sometimes x ** k or f(x)"""
+        if self.cfg.ew_ops and self.draw(st.integers(0, 5)) == 0:
+            V = self.ew_result(size)
+            if V is not None:
+                return V
+        return self.V(d, size=size, classes=("var", "expr"))
 
     def vbin(self, depth, size):
         V = None
@@ -493,7 +526,7 @@ class G:
         return ["vbin", op, V, operand, side]
 
     def matvec(self, depth, size):
-        V = self.V(depth - 1, None, ("var", "expr"))
+        V = self.Vop(depth - 1)
         m = vsize(V, self.env)
         n = size if size is not None else self.draw(st.integers(1, 4))
         A = self.matrix_data(n, m)
